@@ -84,6 +84,7 @@ pub fn form_groups(name: &str, same_operand: bool) -> Vec<Vec<u16>> {
         ("r" | "x", "subi" | "divi" | "subu" | "divu") => vec![(0..5).collect(), (5..10).collect()],
         ("r" | "x", "inv" | "neg") => r(2),
         ("r" | "x", "diveuclid") => r(3),
+        ("m", "udr" | "idr") => r(8),
         _ => Vec::new(),
     }
 }
@@ -97,7 +98,7 @@ pub fn gen_case(seed: u64, index: u64) -> Case {
     sw.w_clone = sw.w_clone.max(10);
     sw.w_query = 0;
     sw.w_panic = sw.w_panic.min(1);
-    sw.w_mod = sw.w_mod.min(2);
+    sw.w_mod = 4;
     match rng.below(4) {
         0 => {
             sw.w_float = 0;
